@@ -217,6 +217,7 @@ type Frame struct {
 	loopEntry map[*ssa.BasicBlock]*loopCtx
 	// the world as it stands right after the cut of each loop (what an iteration starts from)
 	loopWorld map[*ssa.BasicBlock]*World
+	loopPre   map[*ssa.BasicBlock]*World // ... and right before it
 	parent   *Frame
 	// slices whose elements are written through (&s[i]): register -> cell holding the current slice value
 	sliceObjs map[ssa.Value]*PtrVal
@@ -907,6 +908,12 @@ func (f *Frame) fork() *Frame {
 		n.sliceObjs = make(map[ssa.Value]*PtrVal, len(f.sliceObjs))
 		for k, v := range f.sliceObjs {
 			n.sliceObjs[k] = v
+		}
+	}
+	if f.loopPre != nil {
+		n.loopPre = make(map[*ssa.BasicBlock]*World, len(f.loopPre))
+		for k, v := range f.loopPre {
+			n.loopPre[k] = v
 		}
 	}
 	if f.loopWorld != nil {
